@@ -147,6 +147,10 @@ func c14ops() []c14op {
 			c14op{"set/replace terminator br->first @" + tag, "set-term", "local", func(w *c14world) bool { return w.block(sel) != nil && len(w.curFunc().Blocks) > 1 }, func(w *c14world) {
 				w.block(sel).NewBr(w.curFunc().Blocks[len(w.curFunc().Blocks)-1-sel*(len(w.curFunc().Blocks)-1)])
 			}},
+			c14op{"set/replace terminator unnamed invoke @" + tag, "set-term-value", "local", c14hasBlock(sel), func(w *c14world) {
+				f := w.curFunc()
+				w.block(sel).NewInvoke(f, []value.Value{w.operand()}, f.Blocks[0], f.Blocks[len(f.Blocks)-1])
+			}},
 			c14op{"SetName(x) on first unnamed value @" + tag, "rename", "local", func(w *c14world) bool {
 				b := w.block(sel)
 				if b == nil {
@@ -405,7 +409,7 @@ func c14check(c *fw.Check, ops []c14op, obs []c14obs, seq []int, ref string, obs
 		}
 	}
 	// the first edit after the first ID-assigning observer that can shift numbering at a level.
-	shifting := map[string]bool{"insert-front": true, "remove-first": true, "rename": true, "unname": true, "append-inst": true, "append-block": true, "append-global": true, "append-func": true, "insert-metadata": true, "append-metadata": true}
+	shifting := map[string]bool{"insert-front": true, "set-term": true, "set-term-value": true, "remove-first": true, "rename": true, "unname": true, "append-inst": true, "append-block": true, "append-global": true, "append-func": true, "insert-metadata": true, "append-metadata": true}
 	firstShift := func(level string) string {
 		for i := firstAt; i < len(seq); i++ {
 			if i >= 0 && shifting[ops[seq[i]].kind] && (level == "" || ops[seq[i]].level == level) {
@@ -484,7 +488,7 @@ func runC14(c *fw.Check) {
 		maxLen, maxLen2 = 5, 4
 		c.SetBudget(40 * 60 * 1e9)
 	}
-	c.Rule = fmt.Sprintf("all edit histories of length <=%d over %d edit operations (append/insert/remove instructions, set/replace terminators, name/rename/unname values, blocks and globals, add globals/functions/blocks, name a struct type in use, append/prepend metadata; <=2 functions, <=3 blocks) on a fresh module, replayed from scratch; for each history the observer-free run is the reference and EVERY placement of one observer (of %d kinds) at every position is executed (two observers for histories of length <=%d); oracle: final String() equals the reference, no panic on a complete module, String() twice identical. distinct = (history, observer placement).", maxLen, len(ops), len(obs), maxLen2)
+	c.Rule = fmt.Sprintf("all edit histories of length <=%d over %d edit operations (append/insert/remove instructions, set/replace terminators (incl. value-producing unnamed invokes), name/rename/unname values, blocks and globals, add globals/functions/blocks, name a struct type in use, append/prepend metadata; <=2 functions, <=3 blocks) on a fresh module, replayed from scratch; for each history the observer-free run is the reference and EVERY placement of one observer (of %d kinds) at every position is executed (two observers for histories of length <=%d); oracle: final String() equals the reference, no panic on a complete module, String() twice identical. distinct = (history, observer placement).", maxLen, len(ops), len(obs), maxLen2)
 	// enumerate histories (BFS over enabled ops).
 	var hists [][]int
 	var rec func(seq []int)
